@@ -120,9 +120,17 @@ def rule_c(ctx):
     nm = m.func(MOD, "Geometry.normalize")
     am = AM(nm)
     a, b = nm.params[1], nm.params[2]
-    ok = ((am.has(nm.node, f"ratio = np.divide(self.integrate({b}), self.integrate({a}))") is not None or am.has(nm.node, f"ratio = self.integrate({b}) / self.integrate({a})") is not None)
-          and am.has(nm.node, f"rescaled_img = darsia.weight({a}, ratio)") is not None)
-    ctx.ob(R, nm.qname, "normalize integrates both images with the same geometry and weights the image by reference/original", ok, str(am.show()), nm.node)
+    # the ratio handed to darsia.weight, with once-bound locals replaced by their definitions
+    wc = [c for c in ast.walk(nm.node) if isinstance(c, ast.Call) and norm(c.func) == "darsia.weight" and len(c.args) == 2 and norm(c.args[0]) == a]
+    ratio = expand(nm.node, wc[0].args[1]) if len(wc) == 1 else None
+    want = f"self.integrate({b}) / self.integrate({a})"
+    ok = ratio is not None and norm(ratio) == want
+    if ratio is not None and not ok and f"self.integrate({a})" in norm(ratio) and f"self.integrate({b})" in norm(ratio):
+        ctx.ob(R, nm.qname, "normalize integrates both images with the same geometry and weights the image by reference/original", False,
+               f"the weight is `{norm(ratio)[:140]}`, not the plain quotient {want}: where it deviates the integrals of result and reference differ", wc[0], evidence=True)
+        ok = None
+    if ok is not None:
+        ctx.ob(R, nm.qname, "normalize integrates both images with the same geometry and weights the image by reference/original", ok, "weight call darsia.weight(img, ratio) not found" if ratio is None else norm(ratio)[:120], nm.node)
 
 
 def rule_d(ctx):
